@@ -518,7 +518,8 @@ Section FixedLib.
     exists s3 evs,
       process_tail cfg s1 b (rev Uh) (filter esent R) junc (map seg_of (pP ++ [mkEntry b false])) None = (s3, evs, ROk) /\
       apply_all (ri r0) S evs = Some (rev (map eb (pP ++ [mkEntry b false]))) /\
-      Inv s3 (rev (map eb (pP ++ [mkEntry b false]))).
+      Inv s3 (rev (map eb (pP ++ [mkEntry b false]))) /\
+      keys (store (db s3)) = keys (store (db s1)).
   Proof.
     intros HI Hb Hc HP HC HS.
     pose proof HI as [Hnd HU Hl Hlc Hh].
@@ -549,7 +550,9 @@ Section FixedLib.
         destruct (chain_snoc_inv _ _ _ _ _ HcH) as (_ & Hfh & _).
         rewrite <- (stored_is_self _ _ _ HU HhU Hfh).
         eapply (bic_marked _ q d _ pH' eh Hnd HU Hq Hld Hd). exact HcH.
-    - exists s3, (evU ++ evR ++ evN). split; [exact Hrun|]. split.
+    - exists s3, (evU ++ evR ++ evN). split; [exact Hrun|].
+      assert (Hkeys : keys (store (db s3)) = keys (store (db s1))) by (rewrite Hst; apply mark_all_keys).
+      split; [|split; [|exact Hkeys]].
       + (* the consumer *)
         rewrite HS, map_app, rev_app_distr.
         rewrite (apply_all_app _ _ evU _ (rev (map eb C))).
@@ -579,6 +582,212 @@ Section FixedLib.
           -- rewrite map_map, rev_involutive. apply map_ext. intros a. apply flag_if_eb.
           -- apply Forall_forall. intros a Ha. apply in_map_iff in Ha as (a0 & <- & Ha0).
              apply (g_sent_q q a0 Ha0).
+  Qed.
+
+  (* ---------------------------------------------------------------- one ProcessBlock call *)
+
+  Lemma rs_false_nil d : has_lib d = true -> forall f cur cn acc res,
+    rs_loop f d first cur cn acc = Some (res, false) -> res = [].
+  Proof.
+    intros Hh. induction f as [|f IH]; intros cur cn acc res H; [discriminate|].
+    cbn [rs_loop] in H. destruct ((first <? cn) && (cn <? rn (libref d))); [congruence|].
+    destruct (cur =? ri (libref d)); [congruence|].
+    destruct (find cur (store d)) as [e|]; [eapply IH; exact H|].
+    rewrite Hh in H. congruence.
+  Qed.
+
+  Lemma fk_step_dropped s b : In b U -> dropped s b = true -> fk_step cfg s b = (s, [], ROk).
+  Proof.
+    intros Hb Hd. destruct (U_id b Hb) as (H1 & H2 & H3).
+    unfold fk_step. destruct (N.eqb_spec (bid b) (bparent b)); [contradiction|].
+    unfold dropped in Hd. rewrite Hd. reflexivity.
+  Qed.
+
+  (* what a step does to the set of blocks seen so far *)
+  Definition Extras (s s' : fstate) (evs : list event) (b : block) : Prop :=
+    (In (bid b) (keys (store (db s))) \/ dropped s b = true -> s' = s /\ evs = []) /\
+    (forall x, In x (keys (store (db s))) -> In x (keys (store (db s')))) /\
+    (last_sent s <> None -> last_sent s' <> None) /\
+    (In (bid b) (keys (store (db s'))) \/ dropped s' b = true).
+
+  Lemma extras_same s b : In (bid b) (keys (store (db s))) \/ dropped s b = true -> Extras s s [] b.
+  Proof. intros H. repeat split; auto. Qed.
+
+  Lemma extras_new s s' evs b : ~ In (bid b) (keys (store (db s))) -> dropped s b = false ->
+    keys (store (db s')) = keys (store (db s)) ++ [bid b] ->
+    (last_sent s <> None -> last_sent s' <> None) -> Extras s s' evs b.
+  Proof.
+    intros Hk Hd Hkeys Hls. repeat split.
+    - destruct H as [H|H]; [contradiction | congruence].
+    - destruct H as [H|H]; [contradiction | congruence].
+    - intros x Hx. rewrite Hkeys. apply in_or_app. left. exact Hx.
+    - exact Hls.
+    - left. rewrite Hkeys. apply in_or_app. right. left. reflexivity.
+  Qed.
+
+  Lemma inv_sent_some s S : Inv s S -> S <> [] -> last_sent s <> None.
+  Proof. intros HI HS Hn. destruct HI as [_ _ _ _ Hh]. rewrite Hn in Hh. destruct Hh as [-> _]. congruence. Qed.
+
+  Lemma step_inv s S b : Inv s S -> In b U ->
+    exists s' evs S', fk_step cfg s b = (s', evs, ROk) /\ apply_all (ri r0) S evs = Some S' /\ Inv s' S' /\
+                      Extras s s' evs b.
+  Proof.
+    intros HI Hb.
+    destruct (dropped s b) eqn:Hd.
+    { exists s, [], S. rewrite (fk_step_dropped s b Hb Hd). split; [reflexivity|]. split; [reflexivity|]. split; [assumption|]. apply extras_same; auto. }
+    pose proof HI as [Hnd HU Hl Hlc Hh].
+    pose proof (wf_of_U _ Hnd HU) as Hwf.
+    destruct (find (bid b) (store (db s))) as [e|] eqn:Hf.
+    { exists s, [], S. rewrite (fk_step_old s b e HU Hb Hf Hwf).
+      assert (In (bid b) (keys (store (db s)))).
+      { destruct (in_dec N.eq_dec (bid b) (keys (store (db s)))) as [i|n]; [exact i|]. apply find_none in n. congruence. }
+      split; [reflexivity|]. split; [reflexivity|]. split; [assumption|]. apply extras_same; auto. }
+    (* a new block *)
+    pose proof (inv_add s S b HI Hb Hf) as HI1.
+    set (s1 := with_db s (new_db (db s) b)) in *.
+    set (en := mkEntry b false).
+    assert (Hk : ~ In (bid b) (keys (store (db s)))) by (apply find_none; exact Hf).
+    assert (Hsw : exists u r j, sw_of s b = ScssOk u r j).
+    { unfold sw_of. destruct (f_undo (c_filter cfg) && triggers cfg s b); [|eauto].
+      destruct (last_sent s) as [ls|]; [apply scss_total; exact Hwf | eauto]. }
+    destruct Hsw as (undos & redos & junc & Hsw).
+    rewrite (fk_step_new s b undos redos junc Hl Hb Hf Hd Hsw). cbv zeta. fold s1.
+    pose proof HI1 as [Hnd1 HU1 Hl1 Hlc1 Hh1].
+    pose proof (wf_of_U _ Hnd1 HU1) as Hwf1.
+    change (new_db (db s) b) with (db s1).
+    destruct (rs_total (db s1) first Hwf1 (fuel_of (db s1)) (bid b) (bnum b) [] (enough_fuel_of _ _)) as [[longest reach] Hrs].
+    unfold reversible_segment. cbn [bref ri rn]. rewrite Hrs.
+    destruct (negb (triggers cfg s b) || match longest with [] => true | _ => false end) eqn:Hgo.
+    { exists s1, [], S. split; [reflexivity|]. split; [reflexivity|]. split; [assumption|]. apply extras_new; auto.
+      unfold s1. cbn [with_db db new_db store]. apply keys_snoc. }
+    apply orb_false_iff in Hgo as [Htr Hlong]. apply negb_false_iff in Htr.
+    (* the chain of the new block *)
+    assert (Hfb : find (bid b) (store (db s1)) = Some en).
+    { unfold s1. cbn [with_db db new_db store]. apply (find_snoc_new (store (db s)) en). exact Hk. }
+    assert (Hshape : exists pP, chain (store (db s1)) (bid b) (ri r0) (pP ++ [en]) /\ longest = map seg_of (pP ++ [en])).
+    { destruct reach.
+      - destruct (chain_of_rs (db s1) (bid b) en longest Hl1 Hfb) as (p & Hc & Hp).
+        { unfold reversible_segment. cbn [ri rn eb en]. exact Hrs. }
+        destruct p as [|e' p'] using rev_ind.
+        + subst longest. discriminate.
+        + clear IHp'. destruct (chain_snoc_inv _ _ _ _ _ Hc) as (_ & Hf' & _). rewrite Hfb in Hf'. injection Hf' as <-.
+          exists p'. auto.
+      - apply (rs_false_nil (db s1) (has_lib_r0 _ Hl1)) in Hrs. subst longest. discriminate. }
+    destruct Hshape as (pP & Hc & ->).
+    destruct (chain_snoc_inv _ _ _ _ _ Hc) as (_ & _ & HcP). cbn [eb en] in HcP.
+    assert (Hnin : ~ In en pP).
+    { pose proof (chain_nodup _ _ _ _ Hwf1 Hc) as Hn. unfold keys in Hn. rewrite map_app in Hn.
+      intros Hin. refine (nodup_app_disj _ _ (key en) Hn _ _); [apply in_map; exact Hin | left; reflexivity]. }
+    assert (Hfin3 : forall s3 evs, Inv s3 (rev (map eb (pP ++ [en]))) -> keys (store (db s3)) = keys (store (db s1)) ->
+                    Extras s s3 evs b).
+    { intros s3 evs HI3 Hk3. apply extras_new; auto.
+      - rewrite Hk3. unfold s1. cbn [with_db db new_db store]. apply keys_snoc.
+      - intros _. apply (inv_sent_some _ _ HI3). rewrite map_app, rev_app_distr. discriminate. }
+    assert (HcP0 : chain (store (db s)) (bparent b) (ri r0) pP).
+    { apply (chain_restrict (store (db s)) en); assumption. }
+    unfold sw_of in Hsw. rewrite Hundo, Htr in Hsw. cbn [andb] in Hsw.
+    destruct (last_sent s) as [hd|] eqn:Hls.
+    - destruct Hh as (HhU & pH & HcH & HneH & HmH & HsH).
+      assert (HS : S = rev (map eb pH)) by (rewrite HmH, rev_involutive; reflexivity).
+      destruct (N.eq_dec (bid hd) (bparent b)) as [Heq|Hneq].
+      + unfold sent_chain_switch_segments in Hsw. rewrite Heq, N.eqb_refl in Hsw. injection Hsw as <- <- <-.
+        rewrite Heq in HcH. pose proof (chain_det _ _ _ _ _ HcH HcP0) as ->.
+        destruct (trigger_finish s1 S b pP pP [] [] None HI1 Hb Hc) as (s3 & evs & Hrun & Happ & HI3 & Hk3).
+        * rewrite app_nil_r. reflexivity.
+        * exact HsH.
+        * rewrite app_nil_r. exact HS.
+        * exists s3, evs, (rev (map eb (pP ++ [en]))). split; [exact Hrun|]. split; [exact Happ|]. split; [exact HI3|]. apply Hfin3; assumption.
+      + destruct (scss_link (db s) (ri r0) (bid hd) (bparent b) pH pP Hwf Hneq HcH HcP0) as (C & R & Uh & j & HP & HH & Hsc).
+        { intros f t e0 Hu He0. exact (tail_disjoint (db s) pP (bparent b) Hl HU Hnd HcP0 f t e0 Hu He0). }
+        rewrite Hsc in Hsw. injection Hsw as <- <- <-.
+        destruct (trigger_finish s1 S b pP C R Uh j HI1 Hb Hc HP) as (s3 & evs & Hrun & Happ & HI3 & Hk3).
+        * rewrite HH in HsH. apply Forall_app in HsH. tauto.
+        * rewrite HS, HH. reflexivity.
+        * exists s3, evs, (rev (map eb (pP ++ [en]))). split; [exact Hrun|]. split; [exact Happ|]. split; [exact HI3|]. apply Hfin3; assumption.
+    - injection Hsw as <- <- <-. destruct Hh as [-> Hall].
+      assert (Hfil : filter esent pP = []).
+      { induction pP as [|a pP' IHp] using rev_ind; [reflexivity|].
+        rewrite filter_app. cbn [filter].
+        assert (Ha : esent a = false).
+        { apply Hall. eapply chain_in; [exact HcP0 | apply in_or_app; right; left; reflexivity]. }
+        rewrite Ha, app_nil_r. clear -Hall HcP0.
+        (* all entries of pP' are unsent too *)
+        assert (G : forall x, In x pP' -> esent x = false).
+        { intros x Hx. apply Hall. eapply chain_in; [exact HcP0 | apply in_or_app; left; exact Hx]. }
+        clear HcP0. induction pP' as [|h t IHt]; cbn [filter]; [reflexivity|].
+        rewrite (G h (or_introl eq_refl)). apply IHt. intros x Hx. apply G. right. exact Hx. }
+      destruct (trigger_finish s1 [] b pP [] pP [] None HI1 Hb Hc eq_refl (Forall_nil _) eq_refl) as (s3 & evs & Hrun & Happ & HI3 & Hk3).
+      cbn [rev] in Hrun. rewrite Hfil in Hrun.
+      exists s3, evs, (rev (map eb (pP ++ [en]))). split; [exact Hrun|]. split; [exact Happ|]. split; [exact HI3|]. apply Hfin3; assumption.
+  Qed.
+
+  (* ---------------------------------------------------------------- whole histories *)
+
+  Definition Seen (s : fstate) (seen : list block) : Prop :=
+    forall x, In x seen -> In x U /\ (In (bid x) (keys (store (db s))) \/ dropped s x = true).
+
+  Lemma block_eqb_eq a b : block_eqb a b = true -> a = b.
+  Proof.
+    unfold block_eqb. intros H.
+    repeat match goal with H : _ && _ = true |- _ => apply andb_true_iff in H as [? ?] end.
+    destruct a, b. cbn in *.
+    repeat match goal with H : (_ =? _) = true |- _ => apply N.eqb_eq in H end. congruence.
+  Qed.
+
+  Lemma dropped_mono s s' x : libref (db s') = libref (db s) -> (last_sent s <> None -> last_sent s' <> None) ->
+    dropped s x = true -> dropped s' x = true.
+  Proof.
+    unfold dropped. intros -> Hm H. apply andb_true_iff in H as [H1 H2]. rewrite H1. cbn [andb].
+    destruct (last_sent s) as [a|]; [|discriminate]. destruct (last_sent s'); [reflexivity|].
+    exfalso. apply Hm; [discriminate | reflexivity].
+  Qed.
+
+  Lemma run_inv : forall h s S seen, Inv s S -> (forall b, In b h -> In b U) -> Seen s seen ->
+    let t := fk_run cfg s h in
+    length t = length h /\ Forall (fun x => snd x = ROk) t /\
+    (exists S', apply_all (ri r0) S (all_events t) = Some S') /\
+    c01_refeed_b seen h t = true.
+  Proof.
+    induction h as [|b h IH]; intros s S seen HI Hh Hseen.
+    - cbn. repeat split; [constructor | exists S; reflexivity].
+    - destruct (step_inv s S b HI (Hh b (or_introl eq_refl))) as (s' & evs & S' & Hstep & Happ & HI' & Hx1 & Hx2 & Hx3 & Hx4).
+      cbn [fk_run]. rewrite Hstep.
+      assert (Hseen' : Seen s' (b :: seen)).
+      { intros x [<-|Hx].
+        - split; [apply Hh; left; reflexivity | exact Hx4].
+        - destruct (Hseen x Hx) as [HxU [Hk|Hd]]; split; auto.
+          right. refine (dropped_mono s s' x _ Hx3 Hd).
+          destruct (i_lib _ _ HI) as [-> _]. destruct (i_lib _ _ HI') as [-> _]. reflexivity. }
+      destruct (IH s' S' (b :: seen) HI' (fun x Hx => Hh x (or_intror Hx)) Hseen') as (Hlen & Hok & (S2 & Happ2) & Hre).
+      cbn zeta in *. repeat split.
+      + cbn [length]. rewrite Hlen. reflexivity.
+      + constructor; [reflexivity | exact Hok].
+      + exists S2. unfold all_events. cbn [map concat fst]. fold (all_events (fk_run cfg s' h)).
+        rewrite (apply_all_app _ _ _ _ _ Happ). exact Happ2.
+      + cbn [c01_refeed_b]. rewrite Hre, andb_true_r.
+        destruct (existsb (block_eqb b) seen) eqn:Hex; [|reflexivity].
+        apply existsb_exists in Hex as (x & Hx & Heq). apply block_eqb_eq in Heq. subst x.
+        destruct (Hseen b Hx) as [_ Hb]. destruct (Hx1 Hb) as [_ ->]. reflexivity.
+  Qed.
+
+  Lemma error_ok : forall t done, Forall (fun x : list event * result => snd x = ROk) t -> c01_error_b None done t = true.
+  Proof.
+    induction t as [|[evs r] t IH]; intros done H; [reflexivity|].
+    inversion H as [|? ? Hr Ht]; subst. cbn [snd] in Hr. subst r. cbn [c01_error_b result_eqb negb andb].
+    apply IH. exact Ht.
+  Qed.
+
+  Theorem fixed_lib_run h : (forall b, In b h -> In b U) ->
+    let t := fk_run cfg (fs_init (LExcl r0)) h in
+    length t = length h /\ Forall (fun x => snd x = ROk) t /\
+    c01_discipline_b (LExcl r0) t = true /\ c01_refeed_b [] h t = true /\
+    c01_error_b (c_fail_at cfg) 0 t = true.
+  Proof.
+    intros Hh. destruct (run_inv h (fs_init (LExcl r0)) [] [] inv_init Hh) as (Hlen & Hok & (S' & Happ) & Hre).
+    { intros x []. }
+    cbn zeta. repeat split; try assumption.
+    - unfold c01_discipline_b, root_lib. rewrite Happ. reflexivity.
+    - rewrite Hnofail. apply error_ok. exact Hok.
   Qed.
 
 End FixedLib.
